@@ -449,10 +449,10 @@ func runDoc(c *core.Case, e *entry, g *gen) {
 	}
 	smp.Base2, smp.Mutations2, smp.Doc2 = qb(base2), muts2, qb(doc2)
 	// hostile first document, then the second one
-	reuseCheck(c, e, "UnmarshalXML(document)", doc, doc2)
+	reuseCheck(c, e, "UnmarshalXML(document)", false, doc, doc2)
 	// the two clean encodings back and forth (shorter-then-longer and
 	// longer-then-shorter, present-then-absent children, padded-then-unpadded base64)
-	reuseCheck(c, e, "UnmarshalXML(own encodings)", base, base2, base)
+	reuseCheck(c, e, "UnmarshalXML(own encodings)", true, base, base2, base)
 }
 
 func offerDoc(c *core.Case, e *entry, doc []byte, muts []string) {
